@@ -39,7 +39,7 @@ theorem norm_value (indent cs D tok : Line) (c : Char) (hi : IndentOK indent)
 theorem contains_blank (a b : Line) : (a ++ ' ' :: b).contains ' ' = true := by simp
 
 /-- the token of a value: what `ntToken` cuts out of a stripped line that ends in ` ` + token -/
-theorem ntToken_value (env : TextEnv) (ev : Line → Option PyLit) (v : Val) (h : ReprOK env ev v) (pre : Line) :
+theorem ntToken_value (env : TextEnv) (ev : Line → Option PyLit) (v : Val) (h : ReprCore env ev v) (pre : Line) :
     ev (ntToken (pre ++ ' ' :: env.reprV v)) = some (.val v) := by
   have : ntToken (pre ++ ' ' :: env.reprV v) = env.reprV v := by
     by_cases hb : ∃ b, v = .bytes b
@@ -50,7 +50,7 @@ theorem ntToken_value (env : TextEnv) (ev : Line → Option PyLit) (v : Val) (h 
 
 /-- a member / factor value line: the value is appended -/
 theorem classify_value_line (env : TextEnv) (ev : Line → Option PyLit) (indent : Line) (k : VKind) (d : DDesc) (v : Val)
-    (hi : IndentOK indent) (h3 : (descStr d).head? ≠ some '3') (h : ReprOK env ev v) :
+    (hi : IndentOK indent) (h3 : (descStr d).head? ≠ some '3') (h : ReprCore env ev v) :
     ntClassify ev (ntValueLine env indent false k d v) = .append (.val v) := by
   obtain ⟨c, cs, hd, hc, _⟩ := descStr_cons d
   obtain ⟨f1, f2, f3, f4, f5, _⟩ := headChars_facts c hc
@@ -79,7 +79,7 @@ theorem classify_value_line (env : TextEnv) (ev : Line → Option PyLit) (indent
 
 /-- the stripped form of an attribute line -/
 theorem attr_line_norm (env : TextEnv) (ev : Line → Option PyLit) (indent : Line) (k : VKind) (d : DDesc) (v : Val)
-    (hi : IndentOK indent) (h : ReprOK env ev v) :
+    (hi : IndentOK indent) (h : ReprCore env ev v) :
     ∃ c cs, descStr d = c :: cs ∧ (c = 'A' ↔ d.isAssoc = true) ∧
       lstripDotSpace (pyStrip (ntValueLine env indent true k d v)) =
         '-' :: '>' :: ' ' :: c :: cs ++ ' ' :: description env k d ++ ' ' :: env.reprV v := by
@@ -92,7 +92,7 @@ theorem attr_line_norm (env : TextEnv) (ev : Line → Option PyLit) (indent : Li
 
 /-- an attribute line whose descriptor is not an associated field: skipped -/
 theorem classify_attr_skip (env : TextEnv) (ev : Line → Option PyLit) (indent : Line) (k : VKind) (d : DDesc) (v : Val)
-    (hi : IndentOK indent) (hd : d.isAssoc = false) (h : ReprOK env ev v) :
+    (hi : IndentOK indent) (hd : d.isAssoc = false) (h : ReprCore env ev v) :
     ntClassify ev (ntValueLine env indent true k d v) = .skip := by
   obtain ⟨c, cs, _, hA, hn⟩ := attr_line_norm env ev indent k d v hi h
   have hcA : c ≠ 'A' := by
@@ -103,7 +103,7 @@ theorem classify_attr_skip (env : TextEnv) (ev : Line → Option PyLit) (indent 
 
 /-- the attribute line of an associated field: its value is inserted before the owner's -/
 theorem classify_attr_insert (env : TextEnv) (ev : Line → Option PyLit) (indent : Line) (k : VKind) (d : DDesc) (v : Val)
-    (hi : IndentOK indent) (hd : d.isAssoc = true) (h : ReprOK env ev v) :
+    (hi : IndentOK indent) (hd : d.isAssoc = true) (h : ReprCore env ev v) :
     ntClassify ev (ntValueLine env indent true k d v) = .insert (.val v) := by
   obtain ⟨c, cs, _, hA, hn⟩ := attr_line_norm env ev indent k d v hi h
   have hcA : c = 'A' := hA.mpr hd
